@@ -1139,7 +1139,7 @@ def gen_mux_big(rng, tier):
         at = sorted(rng.choice(vt) for _ in range(na))        # audio exactly on video timestamps
     vcalls = [{'op': 'wv', 'pts': fin(t), 'data': video_frame(rng, vc, k == 0, rng.randrange(1, 6)), 'key': k == 0} for k, t in enumerate(vt)]
     acalls = [{'op': 'wa', 'pts': fin(t), 'data': audio_frame(rng, ac, rng.randrange(1, 6))} for t in at]
-    mode = rng.choice(['time', 'vfirst', 'afirst', 'burst'])
+    mode = rng.choice(['time', 'time_afirst', 'time_afirst', 'vfirst', 'afirst', 'burst'])
     calls = [vcalls[0]]
     vi, ai = 1, 0
     while vi < nv or ai < na:
@@ -1153,6 +1153,8 @@ def gen_mux_big(rng, tier):
             pick = 'a'
         elif mode == 'time':
             pick = 'v' if vt[vi] <= at[ai] else 'a'
+        elif mode == 'time_afirst':       # a caller that merges by time but hands over the audio first on equal timestamps
+            pick = 'v' if vt[vi] < at[ai] else 'a'
         else:
             pick = rng.choice(['v', 'v', 'v', 'a', 'a', 'a', 'a'])
         if pick == 'v':
